@@ -15,6 +15,7 @@ import Harper.Model.ConfigPaths
   Tags: `r:` read, `c:` create/truncate, `a:` append, `m:` mkdirs; `U` user dictionary, `UD` its
   directory, `S` statistics file, `DD` the data directory, `FD` the file-dictionary directory,
   `F:<name code points>` a per-document dictionary, `D:<path code points>` a document.
+* `cfgp`, `effc`: further down; `mkd`, `effmk`, `sde` (w24, what `create_dir_all` creates): at the end.
 -/
 namespace Harper.Driver.Effects
 open Harper.Effects Harper.Proto
@@ -156,6 +157,50 @@ def handleEffc (args : List String) : String :=
     match fromLspConfig e cwd c with
     | some P => joinSp ("ok" :: effSortUniq ((traceAll P es).map tagEffFull))
     | none => "rejected"
+  | _, _ => "bad-op"
+
+/-! ## what `create_dir_all` creates (w24): `mkd`, `effmk`, `sde`
+
+`mkd <existing dir> ; <existing dir> ; … | <target path>` → `ok <directories created>`: the directories
+(full paths as code points of `/c1/c2/…`, `..` resolved, sorted, de-duplicated) that `save_dict(target, …)`
+makes on a file system where exactly the listed directories (and their ancestors) exist —
+`dirsCreated existing (saveDictEff (components target))`. Compared with the real `save_dict` run in a sandbox.
+
+`effmk <the seven groups of cfgp> | <existing dir> ; … | <entry> | <entry> | …` → `ok <directories created>`
+by the `mkdirs` effects of the whole history under the resolved configuration, or `rejected`. Compared
+with the SUCCESSFUL `mkdir` calls of a traced server session.
+
+`sde <path>` → `ok <effects of save_dict(path)>` as ATTEMPTS (`m:` the argument of `create_dir_all`, `c:`
+the file): for the root path there is no `m:` (`Path::parent()` is `None`). -/
+
+def pathsOf? (ws : List String) : Option (List Path) :=
+  ((splitAt ";" ws).mapM charsOf).map fun l => l.map fun x => normDots [] (components x)
+
+def showDirs (ds : List Path) : String := joinSp ("ok" :: effSortUniq (ds.map showPath))
+
+def handleMkd (args : List String) : String :=
+  match splitAt "|" args with
+  | [ex, tgt] =>
+    match pathsOf? ex, charsOf tgt with
+    | some existing, some t => showDirs (dirsCreated existing (saveDictEff (components t)))
+    | _, _ => "bad-op"
+  | _ => "bad-op"
+
+def handleSde (args : List String) : String :=
+  match charsOf args with
+  | some t => joinSp ("ok" :: effSortUniq ((saveDictEff (components t)).map tagEffFull))
+  | none => "bad-op"
+
+def handleEffmk (args : List String) : String :=
+  let groups := splitAt "|" args
+  match parseCfgGroups (groups.take 7), groups.drop 7 with
+  | some (e, cwd, c), ex :: entries =>
+    match pathsOf? ex, entries.mapM effParseEntry with
+    | some existing, some es =>
+      match fromLspConfig e cwd c with
+      | some P => showDirs (dirsCreated existing (traceAll P es))
+      | none => "rejected"
+    | _, _ => "bad-op"
   | _, _ => "bad-op"
 
 end Harper.Driver.Effects
